@@ -350,6 +350,8 @@ def scripted_policy(draw, batching=None):
         "script": draw(st.lists(st.integers(0, 35), min_size=4, max_size=60)),
         "batching": draw(st.booleans()) if batching is None else batching,
         "lookahead": draw(st.sampled_from([0, 0, 5, 20])),
+        "retract": draw(st.booleans()),
+        "draws": draw(st.sampled_from([20, 60, 150, 400])),
     }
 
 
